@@ -539,7 +539,11 @@ class PKey:
         return data
 
     def _read_private_key(self, tag, f, password=None):
-        lines = f.readlines()
+        try:
+            lines = f.readlines()
+        except UnicodeDecodeError:
+            # not text at all (the stream decodes while it is being read)
+            raise SSHException("not a valid {} private key file".format(tag))
         if not lines:
             raise SSHException("no lines in {} private key file".format(tag))
 
